@@ -192,3 +192,24 @@ Definition arena_stats (a : arena) : Z * Z * Z * Z :=
 Fixpoint slot_regions (s : list (list addr)) (k : Z) : list (addr * Z) :=
   match s with [] => [] | l :: r => map (fun p => (p, slot_size k)) l ++ slot_regions r (k + 1) end.
 Definition regions (a : arena) : list (addr * Z) := live a ++ slot_regions (slots a) 0.
+
+(* Arena::dup(data, size, null_terminate): one-shot block of align_up(size + nt, 8) bytes holding a copy of the data, the last
+   8 bytes cleared first (padding + terminator). Returns the address and the bytes of the block. *)
+Definition arena_dup (mok : Z -> bool) (a : arena) (data : list Z) (null_terminate : bool) : option (addr * list Z) * arena :=
+  let size := Z.of_nat (length data) in
+  if size =? 0 then (None, a)
+  else
+    let asz := ((size + (if null_terminate then 1 else 0) + 7) / 8) * 8 in
+    match alloc_oneshot mok a asz with
+    | (Some p, a') => (Some (p, data ++ repeat 0 (Z.to_nat (asz - size))), a')
+    | (None, a') => (None, a')
+    end.
+
+(* ArenaString<N>::set_data: embedded when the size is at most max_embedded, else Arena::dup(.., true) *)
+Definition arena_string_set (mok : Z -> bool) (a : arena) (max_embedded : Z) (data : list Z) : option (option addr * list Z) * arena :=
+  let size := Z.of_nat (length data) in
+  if size <=? max_embedded then (Some (None, data ++ [0]), a)
+  else match arena_dup mok a data true with
+       | (Some (p, bytes), a') => (Some (Some p, bytes), a')
+       | (None, a') => (None, a')
+       end.
